@@ -138,6 +138,10 @@ func (p *Path) builtin(fr *Frame, b *ssa.Builtin, args []Value, isDefer bool) Va
 		return Iface{}
 	case "print", "println":
 		return nil
+	case "SliceData", "StringData", "String", "Slice", "Add":
+		if ext, ok := externals["unsafe."+b.Name()]; ok {
+			return ext(p, fr, nil, args)
+		}
 	case "ssa:wrapnilchk":
 		if ptr, ok := args[0].(Ptr); ok && ptr.IsNil() {
 			p.rtPanic(fr, "value method called using nil pointer")
